@@ -916,7 +916,29 @@ func (t *Terms) reachingStore(a *ssa.Alloc, load *ssa.UnOp) ssa.Value {
 		}
 		return cur, false
 	}
-	meet := func(b *ssa.BasicBlock) cell {
+	var meet func(b *ssa.BasicBlock) cell
+	// a loop whose exit is decided by a flag that is false on entry (`done := false; for !done {…}`):
+	// the exit edge of its header is taken only after at least one iteration, so what reaches the exit
+	// is what reaches the header along its back edges
+	backOnly := func(h *ssa.BasicBlock) (cell, bool) {
+		first := true
+		var res cell
+		for _, p := range h.Preds {
+			if !h.Dominates(p) || !vis[p.Index] || t.Dead[[2]int{p.Index, h.Index}] {
+				continue
+			}
+			o := out[p.Index]
+			if first {
+				res, first = o, false
+				continue
+			}
+			if o.conf || res.conf || o.st != res.st {
+				res = cell{conf: true}
+			}
+		}
+		return res, !first
+	}
+	meet = func(b *ssa.BasicBlock) cell {
 		first := true
 		var res cell
 		for _, p := range b.Preds {
@@ -924,6 +946,11 @@ func (t *Terms) reachingStore(a *ssa.Alloc, load *ssa.UnOp) ssa.Value {
 				continue
 			}
 			o := out[p.Index]
+			if exitOnlyAfterIteration(p, b) {
+				if in, ok := backOnly(p); ok {
+					o, _ = transfer(p, in, nil)
+				}
+			}
 			if first {
 				res, first = o, false
 				continue
